@@ -20,45 +20,54 @@ pub struct Adapter {
 impl Adapter {
     pub fn new(kv: &Kv) -> Adapter {
         let val = kv.u64("val", 0);
+        type B = tower_resilience_fallback::FallbackConfigBuilder<Req, Resp, IErr>;
+        let strategy_name = kv.str("strategy", "value");
+        let strategy = move |b: B| -> B {
+            match strategy_name.as_str() {
+                "value_fn" => {
+                    let n = Arc::new(AtomicU64::new(0));
+                    b.value_fn(move || {
+                        let i = n.fetch_add(1, Ordering::SeqCst);
+                        log(format!("strategy value_fn {}", i));
+                        Resp { v: val + i, c: 0, tag: 1 }
+                    })
+                }
+                "from_error" => b.from_error(|e: &IErr| {
+                    log(format!("strategy from_error {} {}", e.kind, e.v));
+                    Resp { v: e.v, c: 0, tag: e.kind as u64 }
+                }),
+                "from_request_error" => b.from_request_error(|rq: &Req, e: &IErr| {
+                    log(format!("strategy from_request_error {} {} {} {}", rq.c, rq.tag, e.kind, e.v));
+                    Resp { v: e.v, c: rq.c, tag: rq.tag * 100 + e.kind as u64 }
+                }),
+                "service" => {
+                    let backup = Inner::labelled("b");
+                    b.service(move |rq: Req| {
+                        let mut s = backup.clone();
+                        s.call(rq)
+                    })
+                }
+                "exception" => b.exception(|e: IErr| {
+                    log(format!("strategy exception {} {}", e.kind, e.v));
+                    IErr { kind: e.kind.wrapping_add(10), v: e.v }
+                }),
+                _ => b.value(Resp { v: val, c: 0, tag: 0 }),
+            }
+        };
+        let handle_mask = kv.opt_u64("handle");
+        let handle = move |b: B| -> B {
+            match handle_mask {
+                Some(mask) => b.handle(move |e: &IErr| {
+                    let r = e.kind < 64 && (mask >> e.kind) & 1 == 1;
+                    log(format!("predicate {} {} {}", e.kind, e.v, r as u8));
+                    r
+                }),
+                None => b,
+            }
+        };
+        // `order=1`: the handle predicate is configured BEFORE the strategy (builder calls commute)
         let b = FallbackLayer::<Req, Resp, IErr>::builder().name("verif");
-        let b = match kv.str("strategy", "value").as_str() {
-            "value_fn" => {
-                let n = Arc::new(AtomicU64::new(0));
-                b.value_fn(move || {
-                    let i = n.fetch_add(1, Ordering::SeqCst);
-                    log(format!("strategy value_fn {}", i));
-                    Resp { v: val + i, c: 0, tag: 1 }
-                })
-            }
-            "from_error" => b.from_error(|e: &IErr| {
-                log(format!("strategy from_error {} {}", e.kind, e.v));
-                Resp { v: e.v, c: 0, tag: e.kind as u64 }
-            }),
-            "from_request_error" => b.from_request_error(|rq: &Req, e: &IErr| {
-                log(format!("strategy from_request_error {} {} {} {}", rq.c, rq.tag, e.kind, e.v));
-                Resp { v: e.v, c: rq.c, tag: rq.tag * 100 + e.kind as u64 }
-            }),
-            "service" => {
-                let backup = Inner::labelled("b");
-                b.service(move |rq: Req| {
-                    let mut s = backup.clone();
-                    s.call(rq)
-                })
-            }
-            "exception" => b.exception(|e: IErr| {
-                log(format!("strategy exception {} {}", e.kind, e.v));
-                IErr { kind: e.kind.wrapping_add(10), v: e.v }
-            }),
-            _ => b.value(Resp { v: val, c: 0, tag: 0 }),
-        };
-        let b = match kv.opt_u64("handle") {
-            Some(mask) => b.handle(move |e: &IErr| {
-                let r = e.kind < 64 && (mask >> e.kind) & 1 == 1;
-                log(format!("predicate {} {} {}", e.kind, e.v, r as u8));
-                r
-            }),
-            None => b,
-        };
+        let b = if kv.u64("order", 0) == 1 { strategy(handle(b)) } else { handle(strategy(b)) };
         Adapter { svc: b.build().layer(Inner::new()) }
     }
 }
